@@ -1,7 +1,7 @@
 """C14 - a schedule's duration is (end - start) modulo 24 hours (normal form of a 5-line function)."""
 from __future__ import annotations
 
-from typing import Any, List, Optional, Tuple
+from typing import Any, Dict, List, Optional, Tuple
 
 from .. import terms as T
 from ..interp import Interp, conj
@@ -214,13 +214,33 @@ def reported_duration_rule(prog: Program, rep: Report) -> None:
     I = Interp(prog, stubs={FUNC: stub, "aioswitcher.schedule.tools:pretty_next_run": stub2})
     st = I.new_state()
     sid, rec, days, s_, e_ = ("sym", "schedule_id", "str"), ("sym", "recurring", "bool"), ("sym", "days", ("set", ("enum", "aioswitcher.schedule:Days"))), ("sym", "start_time", "str"), ("sym", "end_time", "str")
-    outs = I.construct(sci, [sid, rec, days, s_, e_], {}, st, Ctx(None, sci.module, 0), sci.node)
+    # every parameter the constructor accepts beyond the five of today's tree is supplied too, as an unknown value of its
+    # declared type: a duration the CALLER can hand in (an optional `duration` field that __post_init__ keeps when it is
+    # non-empty) is a reported duration that is not calc_duration of the object's own times
+    import ast as _ast
+    known = {"schedule_id": sid, "recurring": rec, "days": days, "start_time": s_, "end_time": e_}
+    extra: Dict[str, T.Term] = {}
+    if sci.is_dataclass and sci.find_method("__init__") is None:
+        for f in sci.init_params():
+            if f.name in known:
+                continue
+            ann = f.annotation.id if isinstance(f.annotation, _ast.Name) else None
+            if isinstance(f.annotation, _ast.Subscript) and isinstance(f.annotation.value, _ast.Name) and f.annotation.value.id == "Optional" and isinstance(f.annotation.slice, _ast.Name):
+                ann = f.annotation.slice.id
+            if ann not in ("str", "int", "bool"):
+                rep.undecided("R14.2", "duration wiring", swhere, f"SwitcherSchedule accepts a further constructor parameter `{f.name}` whose declared type is not str / int / bool: not followed")
+                return
+            extra[f.name] = ("sym", f.name, ann)
+    if extra and all(k in {f.name for f in sci.init_params()} for k in known):
+        outs = I.construct(sci, [], {**known, **extra}, st, Ctx(None, sci.module, 0), sci.node)
+    else:
+        outs = I.construct(sci, [sid, rec, days, s_, e_], dict(extra), st, Ctx(None, sci.module, 0), sci.node)
     rets = [o for o in outs if o.kind == "return"]
     bad = None
     for o in rets:
         d = o.state.heap[o.value[1]].fields.get("duration")
         if d != ("app", "calc_duration", s_, e_):
-            bad = f"duration of a schedule is {T.show(d)[:120] if d else None}; expected calc_duration(start_time, end_time) of the same object"
+            bad = f"duration of a schedule is {T.show(d)[:120] if d else None}{' when ' + T.show(conj(list(o.state.pc)))[:120] if o.state.pc else ''}; expected calc_duration(start_time, end_time) of the same object"
     rep.check(bad is None and bool(rets), "R14.2", "duration wiring", swhere, bad or "SwitcherSchedule(...) never returns", key="R14.2|wiring")
     cached = []
     for key in I.functions_visited:
